@@ -1279,6 +1279,9 @@ func (b *Builder) constScalarMapLookup(x *ast.IndexExpr, wantOK bool) []*Term {
 			zero = &Term{Op: "struct", Name: b.P.typeStr(mt.Elem()), Args: []*Term{tZero}}
 		}
 	}
+	if _, isIface := mt.Elem().Underlying().(*types.Interface); isIface && zero == nil {
+		zero = tNil
+	}
 	if zero == nil {
 		return nil
 	}
@@ -1296,8 +1299,13 @@ func (b *Builder) constScalarMapLookup(x *ast.IndexExpr, wantOK bool) []*Term {
 		var val *Term
 		if vtv, vok := pk.TypesInfo.Types[kv.Value]; vok && vtv.Value != nil {
 			val = constTerm(vtv.Value)
-		} else if vl, isLit := ast.Unparen(kv.Value).(*ast.CompositeLit); isLit && len(vl.Elts) == 0 {
+		} else if vl, isLit := ast.Unparen(kv.Value).(*ast.CompositeLit); isLit && len(vl.Elts) == 0 && zero != tNil {
 			val = zero // struct{}{}
+		} else if vtv, vok := pk.TypesInfo.Types[kv.Value]; vok && vtv.IsNil() {
+			val = tNil
+		} else if vl, isLit := ast.Unparen(kv.Value).(*ast.CompositeLit); isLit && len(vl.Elts) == 0 && pk.TypesInfo == b.info {
+			// an empty literal of a module type (a sentinel error value such as RevokedError{})
+			val = b.expr(vl)
 		} else {
 			return nil
 		}
